@@ -1,0 +1,21 @@
+//go:build verif
+
+// Read-only accessors used by the verification harness in /verif.  This file
+// is only compiled with the build tag "verif"; it adds no behaviour.
+
+package evalfilter
+
+import (
+	"github.com/skx/evalfilter/v2/environment"
+	"github.com/skx/evalfilter/v2/object"
+	"github.com/skx/evalfilter/v2/vm"
+)
+
+// VerifConstants returns the constant pool produced by the compiler.
+func (e *Eval) VerifConstants() []object.Object { return e.constants }
+
+// VerifMachine returns the virtual machine built by Prepare (nil before it).
+func (e *Eval) VerifMachine() *vm.VM { return e.machine }
+
+// VerifEnvironment returns the evaluator's environment.
+func (e *Eval) VerifEnvironment() *environment.Environment { return e.environment }
